@@ -117,6 +117,12 @@ class SamplerCore:
             # Also explicitly set iter in state if missing
             if iter_val is None:
                 self.state.set_current("iter", t0)
+        elif self.state.get_history_length() > 0:
+            # A state was loaded with load_state(), or a finished run is being
+            # extended: continue it (iteration numbering, call counting, random
+            # stream) instead of starting the counters and the stream again
+            iter_val = self.state.get_current("iter")
+            t0 = int(iter_val) if iter_val is not None else 0
         else:
             t0 = 0
             self._initialize_fresh()
